@@ -43,6 +43,7 @@ import (
 	"bufio"
 	"bytes"
 	"io"
+	"math"
 	"unicode"
 	"unicode/utf8"
 )
@@ -178,6 +179,9 @@ func NewDecoder(r io.Reader) *Decoder {
 	d := &Decoder{
 		s: bufio.NewScanner(r),
 	}
+	// A span is only known to be complete once its whole line has been seen:
+	// do not limit lines to the scanner's default token size.
+	d.s.Buffer(nil, math.MaxInt)
 	d.s.Split(d.scan)
 	return d
 }
